@@ -312,3 +312,8 @@ def run(rep, programs):  # noqa: F811
     from props import c08
     c08.r_check_dom(rep, programs["core"])
     c08.r_check_guards(rep, programs["core"])
+
+
+EXPLANATION = EXPLANATION + (
+    " R-CHECK-DOM / R-CHECK-GUARDS (shared with C08): the pages behind the managed frames hold the wrapper's metadata; LLFree::check's range guard keeps frees and targeted allocations off them."
+)
